@@ -179,6 +179,8 @@ type c11Obj struct {
 	infos  []os.FileInfo
 	ctx    context.Context
 
+	closeErr bool // Close() reports an error (names containing "cerr"); the call is counted all the same
+
 	nClose, nTE, nRead, nWrite, nList int
 	ops                               []string
 }
@@ -241,6 +243,7 @@ func (fs *c11FS) resolve(p string) (string, *c11Node) {
 }
 
 var errC11Injected = errors.New("injected failure")
+var errC11Close = errors.New("injected close error")
 
 // c11Info is a value snapshot of a node taken under the backend lock (responses are marshalled later, on another goroutine).
 type c11Info struct {
@@ -269,7 +272,8 @@ func (i c11Info) IsDir() bool        { return i.mode.IsDir() }
 func (i c11Info) Sys() any           { return nil }
 
 func (fs *c11FS) newObj(kind string, r *sftp.Request, n *c11Node) *c11Obj {
-	o := &c11Obj{fs: fs, seq: len(fs.objs), kind: kind, method: r.Method, path: r.Filepath, node: n, ctx: r.Context()}
+	o := &c11Obj{fs: fs, seq: len(fs.objs), kind: kind, method: r.Method, path: r.Filepath, node: n, ctx: r.Context(),
+		closeErr: strings.Contains(r.Filepath, "cerr")}
 	fs.objs = append(fs.objs, o)
 	return o
 }
@@ -333,6 +337,9 @@ func (o *c11Obj) closeObj() error {
 	defer o.fs.mu.Unlock()
 	o.fs.calls++
 	o.nClose++
+	if o.closeErr {
+		return errC11Close
+	}
 	return nil
 }
 
@@ -690,6 +697,9 @@ func c11Populate(dir string) {
 	os.WriteFile(filepath.Join(dir, "d", "e2"), []byte("e2e2"), 0o644)
 	os.Mkdir(filepath.Join(dir, "d", "sub"), 0o755)
 	os.Symlink("a.txt", filepath.Join(dir, "lnk"))
+	os.WriteFile(filepath.Join(dir, "cerr.txt"), []byte("close of this one fails"), 0o644)
+	os.Mkdir(filepath.Join(dir, "cerrd"), 0o755)
+	os.WriteFile(filepath.Join(dir, "cerrd", "x"), []byte("x"), 0o644)
 }
 
 func (fs *c11FS) populateC11() {
@@ -700,6 +710,9 @@ func (fs *c11FS) populateC11() {
 	fs.put("/d/e2", "e2e2", 0o644)
 	fs.mkdir("/d/sub")
 	fs.symlink("/lnk", "a.txt")
+	fs.put("/cerr.txt", "close of this one fails", 0o644)
+	fs.mkdir("/cerrd")
+	fs.put("/cerrd/x", "x", 0o644)
 }
 
 func c11Gen(rng *rand.Rand) []c11Op {
@@ -710,8 +723,8 @@ func c11Gen(rng *rand.Rand) []c11Op {
 		closed bool
 	}
 	var slots []slotInfo
-	files := []string{"a.txt", "b.bin", "d/e1", "d/e2"}
-	dirs := []string{"d", "d/sub", "."}
+	files := []string{"a.txt", "b.bin", "d/e1", "d/e2", "cerr.txt"}
+	dirs := []string{"d", "d/sub", ".", "cerrd"}
 	missing := []string{"nope", "d/nope", "nodir/x"}
 	failing := []string{"fail.txt", "d/xfail", "failures"}
 	newCount := 0
@@ -741,7 +754,42 @@ func c11Gen(rng *rand.Rand) []c11Op {
 		}
 		return []byte{fxpReaddir, fxpReaddir, fxpFstat}[rng.Intn(3)]
 	}
+	// about half of the sessions carry, somewhere, the scripted episode "open an object whose Close() fails, CLOSE it,
+	// use the dead handle, CLOSE it again" (request server: names containing "cerr"; plain files for the os server)
+	cerrAt := -1
+	if rng.Intn(100) < 55 {
+		cerrAt = rng.Intn(n - 4)
+	}
 	for len(ops) < n {
+		if cerrAt >= 0 && len(ops) >= cerrAt {
+			cerrAt = -1
+			s := len(slots)
+			var stale byte
+			switch rng.Intn(4) {
+			case 0:
+				ops, stale = append(ops, c11Op{typ: fxpOpen, name: "cerr.txt", pflags: 1, slot: -1}), fxpRead
+				slots = append(slots, slotInfo{"r", true, true})
+			case 1:
+				newCount++
+				ops, stale = append(ops, c11Op{typ: fxpOpen, name: fmt.Sprintf("cerrnew%d", newCount), pflags: 0x1a, slot: -1}), fxpWrite
+				slots = append(slots, slotInfo{"w", true, true})
+			case 2:
+				ops, stale = append(ops, c11Op{typ: fxpOpen, name: "cerr.txt", pflags: 3, slot: -1}), []byte{fxpRead, fxpWrite}[rng.Intn(2)]
+				slots = append(slots, slotInfo{"rw", true, true})
+			default:
+				ops, stale = append(ops, c11Op{typ: fxpOpendir, name: "cerrd", slot: -1}), fxpReaddir
+				slots = append(slots, slotInfo{"dir", true, true})
+			}
+			if rng.Intn(2) == 0 {
+				ops = append(ops, c11Op{typ: handleOp(slots[s].kind, false), slot: s})
+			}
+			ops = append(ops, c11Op{typ: fxpClose, slot: s})
+			if rng.Intn(3) == 0 {
+				stale = []byte{fxpFstat, fxpFsetstat}[rng.Intn(2)]
+			}
+			ops = append(ops, c11Op{typ: stale, slot: s}, c11Op{typ: fxpClose, slot: s})
+			continue
+		}
 		live := sel(func(s slotInfo) bool { return s.ok && !s.closed })
 		closed := sel(func(s slotInfo) bool { return s.ok && s.closed })
 		r := rng.Intn(100)
@@ -991,9 +1039,14 @@ func c11Run(srv string, alloc, rich bool, ops []c11Op, nFull, partial int, clean
 			if op.typ != fxpClose {
 				break
 			}
-			if !isStatus || code != 0 {
+			// an object whose Close() reports an error may make the CLOSE fail; the handle is dead all the same
+			closeMayFail := slotObj[op.slot] != nil && slotObj[op.slot].closeErr
+			if !isStatus || (code != 0 && !closeMayFail) {
 				fail("close-failed: CLOSE of an open handle answered type %d code %d", resp.Typ, code)
 				break
+			}
+			if closeMayFail {
+				out.stats = append(out.stats, fmt.Sprintf("close_of_failing_closer_status_%d", code))
 			}
 			slotClosed[op.slot] = true
 			liveCount--
@@ -1094,7 +1147,7 @@ func c11Run(srv string, alloc, rich bool, ops []c11Op, nFull, partial int, clean
 
 func runC11(c *Ctx) {
 	c.Rule("generated sessions of 6-25 raw requests (OPEN read/write/read+write and OPENDIR on existing, missing and handler-refused names; READ/WRITE/READDIR/FSTAT/FSETSTAT/CLOSE on live, " +
-		"closed and never-issued handles; STAT/LSTAT/READLINK in between), each request answered before the next; every session is ended cleanly, after request i for every i, and inside its last packet; " +
+		"closed and never-issued handles; STAT/LSTAT/READLINK in between; about half of the sessions contain: open an object whose Close() returns an error - names with \"cerr\" - CLOSE, use of the dead handle, CLOSE again), each request answered before the next; every session is ended cleanly, after request i for every i, and inside its last packet; " +
 		"os server: descriptors counted in /proc/self/fd after every request and after Serve returned; request server: instrumented reader/writer/read-writer/lister objects and recorded contexts " +
 		"(OpenFileWriter+LstatFileLister in sessions with bit 1 set, allocator in odd sessions); non-trivial = at least one open succeeded and (a handle was still open at the end or a closed/never-issued handle was used)")
 	root, err := os.MkdirTemp("", "vh-c11-")
